@@ -149,7 +149,7 @@ func c27Patterns(thorough bool) []string {
 		}
 	}
 	// hand-picked, not composed further
-	for _, s := range []string{"A.|(?i:a)", "(?i:a)|A.", "(A.)|((?i:a))", "Ab|(?i:ab)", "(?i:a)b|Ac", "é.|(?i:É)", "(É.)|(?i:(é))", "(Ab|(?i:a)b)", "(A+|(?i:a))", "(A{2}b|(?i:a){2})"} {
+	for _, s := range []string{"A.|(?i:a)", "(?i:a)|A.", "(A.)|((?i:a))", "Ab|(?i:ab)", "(?i:a)b|Ac", "é.|(?i:É)", "(É.)|(?i:(é))", "(Ab|(?i:a)b)", "(A+|(?i:a))", "(A{2}b|(?i:a){2})", `(A\b|(?i:a)|a)`, `(A\b|[Aa])`, `(Ab|[Aa]c)`} {
 		add(s)
 	}
 	return out
@@ -317,6 +317,9 @@ type c27Variant struct {
 	// last print step of the derivation, for attributing a discrepancy: the tree that was
 	// printed (as executor) and the printout that was handed to syntax.Parse.
 	printed func() (x *c27Exec, printout string, ok bool)
+	// an earlier print -> parse step of the derivation (OptimizeRegexp has two): the tree that was
+	// printed, the printout, and the tree syntax.Parse made of it
+	earlier func() (x *c27Exec, printout string, parsed *c27Exec, ok bool)
 }
 
 // c27UncaptureZ is query.uncapture (captures become one-element concatenations, in place).
@@ -509,6 +512,22 @@ func TestVerifC27(t *testing.T) {
 			}
 			return ux, p2, true
 		})
+		opt.earlier = func() (*c27Exec, string, *c27Exec, bool) {
+			// the first Parse of convertCapture: the printout of the unmodified tree
+			if !c27HasCapture(T) {
+				return nil, "", nil, false
+			}
+			p1 := syntaxutil.RegexpString(T)
+			r1, err := syntax.Parse(p1, gen.ReFlags)
+			if err != nil {
+				return nil, "", nil, false
+			}
+			x1, err := c27Compile(r1)
+			if err != nil {
+				return nil, "", nil, false
+			}
+			return ref, p1, x1, true
+		}
 		if after := T.String(); after != before {
 			report(p, fmt.Sprintf("optimize modifies its input: pattern=%q", p), "zoekt", fmt.Sprintf("pattern %q: tree printed %q before and %q after OptimizeRegexp", p, before, after))
 		}
@@ -582,6 +601,17 @@ func TestVerifC27(t *testing.T) {
 						if err == nil && c27Same(xs, exp) && c27Same(rs, xs) {
 							tag = "go-regexp/syntax-reparse"
 							why = fmt.Sprintf("\nattribution: the text handed to syntax.Parse in the last step is %q; the tree it was printed from has spans %s and RE2 (independent parser) gives %s for that text, but syntax.Parse of that text yields a tree with spans %s: the printout is faithful, its re-parse by regexp/syntax is not", printout, c27Show(xs), c27Show(rs), c27Show(got))
+						}
+					}
+				}
+				if tag == "zoekt" && v.earlier != nil {
+					if px, printout, parsed, ok := v.earlier(); ok {
+						xs := px.findAll(sub, nil)
+						ps := parsed.findAll(sub, nil)
+						rs, err := c27RE2Spans(printout, sub.s)
+						if err == nil && c27Same(xs, exp) && c27Same(rs, xs) && !c27Same(ps, xs) {
+							tag = "go-regexp/syntax-reparse"
+							why = fmt.Sprintf("\nattribution: the text handed to syntax.Parse in the FIRST step of OptimizeRegexp is %q; the tree it was printed from has spans %s and RE2 (independent parser) gives %s for that text, but syntax.Parse of that text yields a tree with spans %s: the printout is faithful, its re-parse by regexp/syntax is not", printout, c27Show(xs), c27Show(rs), c27Show(ps))
 						}
 					}
 				}
